@@ -66,3 +66,34 @@ package dnsforward
 //@   ensures err != nil
 //@   ensures drop: (pctx.Proto == proxy.ProtoUDP || pctx.Proto == proxy.ProtoDNSCrypt) ==> !typeIs(err, *proxy.BeforeRequestError)
 //@   ensures refused: !(pctx.Proto == proxy.ProtoUDP || pctx.Proto == proxy.ProtoDNSCrypt) ==> typeIs(err, *proxy.BeforeRequestError) && synthReply(unbox(err, *proxy.BeforeRequestError).Response, pctx.Req, 5)
+//@   ensures shape: blockedShape(err, pctx.Proto, pctx.Req)
+
+// ---- pre-request hook (C03, C16) ----
+
+//@ ghost var lastCID string
+//@ ghost var lastCIDErr bool
+//@ declare hostBlocked(a *accessManager, host string, qt uint16) bool
+
+//@ define blockedShape(err error, proto proxy.Proto, req *dns.Msg) bool = err != nil && ((proto == proxy.ProtoUDP || proto == proxy.ProtoDNSCrypt) ? !typeIs(err, *proxy.BeforeRequestError) : (typeIs(err, *proxy.BeforeRequestError) && synthReply(unbox(err, *proxy.BeforeRequestError).Response, req, 5)))
+
+// The blocked-host engine is urlfilter's: its verdict is an uninterpreted predicate of (manager, host, qtype).
+//@ func (a *accessManager) isBlockedHost(host string, qt rules.RRType) (ok bool)
+//@   trusted
+//@   modifies nothing
+//@   ensures ok == hostBlocked(a, host, qt)
+
+//@ func (s *Server) HandleBefore(_p0 *proxy.Proxy, pctx *proxy.DNSContext) (err error)
+//@   property C03, C16
+//@   requires pctx.Addr.Addr() != netip.Addr{}
+//@   requires !held(s.serverLock) && !rheld(s.serverLock)
+//@   modifies *
+//@   ensures clientid-error-servfail: lastCIDErr ==> typeIs(err, *proxy.BeforeRequestError) && synthReply(unbox(err, *proxy.BeforeRequestError).Response, old(pctx.Req), 2)
+//@   ensures excluded-client: !lastCIDErr && !old(admitted(s.access, pctx.Addr.Addr(), cur(lastCID))) ==> blockedShape(err, old(pctx.Proto), old(pctx.Req))
+//@   ensures blocked-host: !lastCIDErr && old(admitted(s.access, pctx.Addr.Addr(), cur(lastCID))) && old(len(pctx.Req.Question) == 1 && hostBlocked(s.access, aghnet.NormalizeDomain(pctx.Req.Question[0].Name), pctx.Req.Question[0].Qtype)) ==> blockedShape(err, old(pctx.Proto), old(pctx.Req))
+//@   ensures served: !lastCIDErr && old(admitted(s.access, pctx.Addr.Addr(), cur(lastCID))) && !old(len(pctx.Req.Question) == 1 && hostBlocked(s.access, aghnet.NormalizeDomain(pctx.Req.Question[0].Name), pctx.Req.Question[0].Qtype)) ==> err == nil
+
+//@ func (s *Server) clientIDFromDNSContext(pctx *proxy.DNSContext) (clientID string, err error)
+//@   property C16
+//@   modifies lastCID, lastCIDErr
+//@   ghost at return: lastCID = clientID
+//@   ghost at return: lastCIDErr = (err != nil)
